@@ -256,6 +256,69 @@ def task_concrete():
 task_concrete.contract_fn = "curves.BaseCurve.__eq__"
 
 
+def _homogeneous_refined(U, p, P, W, V, q):
+    """The control points and weights of the rational curve (U, P, W) on the refined knot vector V (degree q >= p): refine w_i P_i and w_i."""
+    num = _refined(U, p, [w * x for w, x in zip(W, P)], V, q)
+    den = _refined(U, p, list(W), V, q)
+    return [a / b for a, b in zip(num, den)], den
+
+
+def task_operand_kinds():
+    """Operand kinds the symbolic tasks do not feed: rational operands (different weights on the same data; a refined / elevated copy built by hand in homogeneous
+    coordinates; a rational and a polynomial description of the same function), curves without control points, control points of different shapes."""
+    fn = "curves.BaseCurve.__eq__"
+    out = []
+    U = [F(0)] * 3 + [F(1, 2)] + [F(1)] * 3
+    P = [F(0), F(1), F(-1), F(2)]
+    W1, W2 = [F(1), F(2), F(1), F(3)], [F(1), F(3), F(1), F(3)]
+    V = sorted(U + [F(1, 4), F(1, 2)])
+    Pr, Wr = _homogeneous_refined(U, 2, P, W1, V, 2)
+    Ve = spec.elevate_vector(U, 2, 1)
+    Pe, We = _homogeneous_refined(U, 2, P, W1, Ve, 3)
+    mk = curves.Curve
+    lin = lambda: mk([F(0), F(0), F(1), F(1)], [F(0), F(1)])                                     # f(u) = u
+    linrat = lambda: mk([F(0)] * 3 + [F(1)] * 3, [F(0), F(1, 3), F(1)], [F(1), F(3, 2), F(2)])   # the same function as a rational quadratic (W(u) = 1 + u)
+    linrat2 = lambda: mk([F(0)] * 3 + [F(1)] * 3, [F(0), F(1, 2), F(1)], [F(1), F(3, 2), F(2)])  # another function
+    cases = [
+        ("same-data-other-weights", lambda: mk(list(U), list(P), list(W1)), lambda: mk(list(U), list(P), list(W2)), False),
+        ("rational-vs-no-weights", lambda: mk(list(U), list(P), list(W1)), lambda: mk(list(U), list(P)), False),
+        ("rational-vs-itself", lambda: mk(list(U), list(P), list(W1)), lambda: mk(list(U), list(P), list(W1)), True),
+        ("rational-vs-scaled-weights", lambda: mk(list(U), list(P), list(W1)), lambda: mk(list(U), list(P), [3 * w for w in W1]), True),
+        ("rational-vs-knot-refined-copy", lambda: mk(list(U), list(P), list(W1)), lambda: mk(list(V), list(Pr), list(Wr)), True),
+        ("rational-vs-elevated-copy", lambda: mk(list(U), list(P), list(W1)), lambda: mk(list(Ve), list(Pe), list(We)), True),
+        ("rational-vs-perturbed-refined-copy", lambda: mk(list(U), list(P), list(W1)), lambda: mk(list(V), [Pr[0], Pr[1] + F(1, 1000)] + list(Pr[2:]), list(Wr)), False),
+        ("polynomial-vs-rational-description", lin, linrat, True),
+        ("polynomial-vs-other-rational", lin, linrat2, False),
+        ("no-points-same-vector", lambda: mk(list(U)), lambda: mk(list(U)), True),
+        ("no-points-other-vector", lambda: mk(list(U)), lambda: mk(list(V)), False),
+        ("no-points-vs-points", lambda: mk(list(U)), lambda: mk(list(U), list(P)), False),
+        ("scalar-vs-plane-points", lambda: mk([F(0), F(0), F(1), F(1)], [F(1), F(2)]),
+         lambda: mk([F(0), F(0), F(1), F(1)], [np.array([F(1), F(1)], dtype=object), np.array([F(2), F(2)], dtype=object)]), False),
+        ("plane-vs-space-points", lambda: mk([F(0), F(0), F(1), F(1)], [np.array([F(1), F(1)], dtype=object), np.array([F(2), F(2)], dtype=object)]),
+         lambda: mk([F(0), F(0), F(1), F(1)], [np.array([F(1), F(1), F(0)], dtype=object), np.array([F(2), F(2), F(0)], dtype=object)]), False),
+    ]
+    for name, fa, fb, want in cases:
+        bad = None
+        try:
+            A_, B_ = fa(), fb()
+            sa, sb = (tuple(A_.knotvector), repr(A_.ctrlpoints), A_.weights), (tuple(B_.knotvector), repr(B_.ctrlpoints), B_.weights)
+            got = {"A==B": bool(A_ == B_), "B==A": bool(B_ == A_), "A!=B": bool(A_ != B_), "B!=A": bool(B_ != A_), "A==A": bool(A_ == A_), "B==B": bool(B_ == B_)}
+            exp = {"A==B": want, "B==A": want, "A!=B": not want, "B!=A": not want, "A==A": True, "B==B": True}
+            wrong = {k: v for k, v in got.items() if v != exp[k]}
+            if wrong:
+                bad = "verdicts %s, expected %s" % (wrong, {k: exp[k] for k in wrong})
+            elif (tuple(A_.knotvector), repr(A_.ctrlpoints), A_.weights) != sa or (tuple(B_.knotvector), repr(B_.ctrlpoints), B_.weights) != sb:
+                bad = "an operand was modified"
+        except Exception as e:
+            bad = "%s: %s" % (type(e).__name__, str(e)[:100])
+        out.append(ob("%s:operand-kinds[%s]" % (fn, name), fn, FAILED if bad else PROVED, "B", "concrete", 0.0,
+                      bad or "==, != in both orders, reflexivity; operands untouched", dict(kind="c13.kinds", case=name) if bad else None))
+    return out + [{"_stats": dict(cases=len(out))}]
+
+
+task_operand_kinds.contract_fn = "curves.BaseCurve.__eq__"
+
+
 def tasks(tier, seed):
     from ..pyvc.driver import verify
     from ..contracts import curvesv
@@ -267,11 +330,15 @@ def tasks(tier, seed):
     for variant in (0, 1):
         ts.append((task_misc, (variant,)))
     ts.append((task_concrete, ()))
+    ts.append((task_operand_kinds, ()))
     return ts
 
 
 def replay(o):
     w = o["witness"]
+    if w.get("kind") == "c13.kinds":
+        r = [x for x in task_operand_kinds() if "id" in x and x["id"].endswith("[%s]" % w["case"])][0]
+        return r["status"] == FAILED, "==, != in both orders agree with the functions; no exception; operands untouched", r["detail"]
     if w.get("kind") == "c13.concrete":
         r = [x for x in task_concrete() if "id" in x and (("history" in x["id"]) == (w["which"] == "history"))][0]
         return r["status"] == FAILED, "verdicts of == / != agree with the functions in every order", r["detail"]
